@@ -17,7 +17,7 @@
 #include "contracts/C08_split.h"
 
 typedef struct { size_t size; char top; } cstack;
-extern size_t g_depth, g_nops, g_kdepth, g_size0, g_cnt0, g_ls0;
+extern size_t g_depth, g_nops, g_kdepth, g_size0, g_cnt0, g_ls0, g_nconsumed;
 extern int g_lastop; extern char g_lastval, g_c, g_top0; extern bool g_esc0;
 char nondet_char(void);
 static inline void c8_stk_init(cstack* k) { k->size = 0; k->top = 0; g_depth = 0; }
@@ -47,12 +47,15 @@ static inline void c8_ctx_check(const cstack* k, bool esc, size_t count, size_t 
   __CPROVER_assert((esc ? 1 : 0) == (CTX_ESC_NEXT(g_c, g_size0, g_top0, g_esc0) ? 1 : 0), "lock-step: escape flag");
   __CPROVER_assert(count == g_cnt0 + (verif_split ? 1 : 0), "lock-step: a piece is cut exactly at a top-level delimiter while fewer than max_splits cuts were made");
   __CPROVER_assert(last_start == (verif_split ? z + 1 : g_ls0), "lock-step: the next piece starts right after the delimiter");
+  g_nconsumed = z + 1;    /* the reference automaton has now consumed s[0 .. z] */
 }
 
 void split_context(vvec* ret, const vstr* s, char delim, size_t max_splits)
 VEC_REQ(ret) SRC_REQ(s)
 __CPROVER_requires(verif_exc == 0 && g_pj < VSTR_MAXCAP)
-/* accepts iff the nesting stack is empty at the end; the only exception is runtime_error */
+/* accepts iff the nesting stack is empty at the END OF THE INPUT (the automaton has consumed every character, whatever max_splits is);
+ * the only exception is runtime_error */
+__CPROVER_ensures(g_nconsumed == s->size)
 __CPROVER_ensures((verif_exc == 0 && g_depth == 0) || (verif_exc == EXC_runtime_error && g_depth != 0))
 __CPROVER_ensures(verif_exc == 0 ==> (ret->size >= 1 && ret->size - 1 <= s->size))
 __CPROVER_ensures((verif_exc == 0 && max_splits != 0) ==> ret->size - 1 <= max_splits)
@@ -63,5 +66,5 @@ __CPROVER_ensures((verif_exc == 0 && g_pj + 1 == ret->size) ==> g_pstart + g_ple
 /* no piece contains a top-level delimiter (nesting depth 0 before it; delim itself not an opener) unless max_splits stopped the splitting (last piece) */
 __CPROVER_ensures((verif_exc == 0 && g_pj < ret->size && !(SPLIT_CAPPED(ret, max_splits) && g_pj + 1 == ret->size) && g_sk >= g_pstart && g_sk - g_pstart < g_plen &&
                    s->data[g_sk] == delim && CTX_CLOSER(delim) == 0) ==> g_kdepth > 0)
-__CPROVER_assigns(verif_exc, ret->size, g_pstart, g_plen, g_nstart, g_depth, g_nops, g_kdepth, g_size0, g_cnt0, g_ls0, g_lastop, g_lastval, g_c, g_top0, g_esc0);
+__CPROVER_assigns(verif_exc, ret->size, g_pstart, g_plen, g_nstart, g_depth, g_nops, g_kdepth, g_size0, g_cnt0, g_ls0, g_lastop, g_lastval, g_c, g_top0, g_esc0, g_nconsumed);
 #endif
